@@ -4,7 +4,7 @@ import json
 import random
 
 import flow
-from common import TERM, V, digest
+from common import IRQ, MSG, TERM, V, digest
 
 
 class FlowFamily:
@@ -12,7 +12,19 @@ class FlowFamily:
 
     def gen(self, rng, idx, opts):
         sub = opts.get('sub', 'plain')
-        wf, a, b = flow.gen_case(rng, sub)
+        twojumps = sub == 'loop' and rng.random() < opts.get('twojumps', 0.3)
+        if twojumps:
+            # two branches of one step jump back to the same earlier step: every jump that is taken starts that step again
+            sub = 'twojumps'
+            a, b = rng.randint(0, 2), rng.randint(0, 2)
+            bl = [{'id': 'jb1', 'if': 'a > 0', 'steps': [{'id': 's21', 'next': 's1'}]}, {'id': 'jb2', 'if': 'b > 0', 'steps': [{'id': 's22', 'next': 's1'}]}, {'id': 'jb3', 'else': True, 'steps': [{'id': 's23'}]}]
+            if rng.random() < 0.5:
+                bl[0]['steps'].insert(0, {'id': 's20', 'acts': [{'id': 'm20', 'uses': MSG, 'key': 'm20'}]})
+            if rng.random() < 0.5:
+                rng.shuffle(bl)
+            wf = {'id': 'm1', 'inputs': {'a': 0, 'b': 0}, 'steps': [{'id': 's1', 'acts': [{'id': 'a1', 'uses': IRQ, 'key': 'kj'}]}, {'id': 's2', 'branches': bl}]}
+        else:
+            wf, a, b = flow.gen_case(rng, sub)
         scheds = opts.get('scheds') or [s[0] for s in flow.SCHEDULES]
         nvar = opts.get('variants', 2)
         scs = []
@@ -22,10 +34,12 @@ class FlowFamily:
         for j, sname in enumerate(chosen):
             sched = [s for s in flow.SCHEDULES if s[0] == sname][0]
             w = wf
-            if sub != 'loop' and rng.random() < 0.4:
+            if sub not in ('loop', 'twojumps') and rng.random() < 0.4:
                 w = flow.permute(wf, rng)
             stripped = sub == 'plain' and rng.random() < opts.get('strip', 0.15)
             sc_ = flow.scenario('', flow.strip_ids(w, rng) if stripped else w, a, b, sched, rng.randrange(1 << 30), snap=opts.get('snap', 'rows'), store=opts.get('store', 'mem'))
+            if twojumps:
+                sc_['responder']['rules'] = [{'match': {'key': 'kj'}, 'action': 'next', 'times': 1}]      # the first pass only
             if stripped:
                 sc_['stripped'] = True      # steps / acts without explicit ids: the engine names them, outcomes are compared by kind
                 sc_['sched'] += '+noids'
@@ -41,7 +55,7 @@ class FlowFamily:
                 sc_['sched'] += '+evict'
             scs.append(sc_)
         exp, order = (None, None)
-        if sub != 'loop':
+        if sub not in ('loop', 'twojumps'):
             exp, order = flow.reference(wf, a, b)
         return {'scenarios': scs, 'meta': {'wf': wf, 'a': a, 'b': b, 'sub': sub, 'expected': exp, 'order': order},
                 'digest': digest([wf, a, b]), 'nontrivial': flow.nontrivial(wf)}
@@ -90,7 +104,9 @@ class FlowFamily:
         m = c['meta']
         for h, sc in zip(c['hist'], c['scenarios']):
             out += self.instance_order(h, sc, m, obs)
-            if m['sub'] == 'loop':
+            if m['sub'] == 'twojumps':
+                out += self.judge_twojumps(h, sc, m, obs)
+            elif m['sub'] == 'loop':
                 out += self.judge_loop(h, sc, m, obs)
             else:
                 out += self.judge_one(h, sc, m, obs)
@@ -163,6 +179,17 @@ class FlowFamily:
         p = procs.get('p1')
         if p is None or p['state'] != 'completed':
             out.append(V('C04', 'process-state', f"{p['state'] if p else 'absent'}:{tag}", f"process ended {p['state'] if p else 'absent'}, reference says completed (a={m['a']} b={m['b']} sched {sc['sched']})", scenario=sc['id']))
+        return out
+
+    def judge_twojumps(self, h, sc, m, obs):
+        out = []
+        jumps = (1 if m['a'] > 0 else 0) + (1 if m['b'] > 0 else 0)
+        inst = collections.Counter(e['nid'] for e in h.creates)
+        obs[f'c04.two-jumps-to-one-step:jumps={jumps}'] += 1
+        if inst['s1'] != 1 + jumps or inst['a1'] != 1 + jumps:
+            out.append(V('C04', 'jump-instances', f"jumps={jumps}", f"{jumps} branches jump back to s1 (a={m['a']}, b={m['b']}): s1 was started {inst['s1']} times (its act {inst['a1']} times), expected {1 + jumps}", scenario=sc['id']))
+        if (inst['s23'] == 1) != (jumps == 0):
+            out.append(V('C04', 'branch-selection', 'else:twojumps', f"else branch jb3 ran {inst['s23']} times with a={m['a']}, b={m['b']}", scenario=sc['id']))
         return out
 
     def judge_loop(self, h, sc, m, obs):
